@@ -25,6 +25,18 @@ HOSTILE_FIXED = [
     "(argument_list ((identifier) @arg ? @comma)+) {\n  let u1 = @arg\n  let u2 = @comma\n}\n",
 ]
 
+# texts of repaired defects, run as they are on a fixed source: F15 (a predicate where a pattern is expected makes a capture that is
+# declared present-once unbound in some matches; reading it panicked), F2 (`$n` outside any scan arm / beyond the groups, lazy mode)
+REGRESSION_TEXTS = [
+    ("(assignment left: (_) @l right: (#null)? @r) @a {\n  let u1 = @l\n  let u2 = @r\n  let u3 = @a\n}\n", 2),
+    ("(assignment left: (_) @l right: (_)? @r) @a {\n  let u1 = @l\n  let u2 = @r\n  let u3 = @a\n}\n"
+     "(assignment left: (_) @l right: (_)? @r) @a {\n  print @l, @r, @a\n}\n"
+     "(assignment left: (_) @l right: (#null)? @r) @a {\n  node n\n  attr (n) l = @l, r = @r, a = @a\n}\n", 2),
+    ("(assignment left: (_) @l right: (#null)? @r) @_a {\n  print @r, @l\n}\n", 10),
+    ("(module) @_m {\n  print $1\n}\n", 2),
+    ("(module) @_m {\n  scan \"ab\" {\n    \"(a)\" {\n      print $2\n    }\n  }\n}\n", 2),
+]
+
 HOSTILE = [
     "(module) @m { let x = 99999999999 }",
     "(module) @m { let x = 4294967296 }",
@@ -286,6 +298,7 @@ def run(tier):
             texts.append((m, r.choice([2, 10, 12, 13, 18])))
     for t in HOSTILE_FIXED:
         texts.append((t, 14))
+    texts += REGRESSION_TEXTS
     for t, s in base_texts:
         for m in mutations(t, r, tier == "thorough" and len(t) < 300):
             texts.append((m, s))
